@@ -463,6 +463,19 @@ func (m *mach) builtinModel(fn *ssa.Function, args []mv) (mv, bool) {
 		if _, isNil := args[0].(mNilT); isNil {
 			return mNil, true
 		}
+	case name == "errors.Is" && len(args) == 2:
+		if is, known := m.errorsIs(args[0], args[1], 0); known {
+			return is, true
+		}
+	case name == "errors.Unwrap" && len(args) == 1:
+		if ei, ok := args[0].(mIface); ok && ei.t != nil {
+			if _, isSym := ei.v.(*mSym); !isSym {
+				if f := m.c.lookupMethod(ei.t, "Unwrap"); f != nil && f.Blocks != nil && f.Signature.Results().Len() == 1 && isErrorLike(f.Signature.Results().At(0).Type()) {
+					return m.callFn(nil, f, []mv{ei.v}, nil), true
+				}
+				return mNil, true
+			}
+		}
 	case name == "errors.New" || name == "fmt.Errorf":
 		return mIface{t: types.NewPointer(types.Universe.Lookup("error").Type()), v: &mSym{name: "error(" + mRender(args[0]) + ")", nonNil: true}}, true
 	case name == "fmt.Sprintf" || name == "fmt.Sprint":
@@ -843,6 +856,7 @@ var pureStdPkgs = map[string]bool{
 	"bytes": true, "strings": true, "slices": true, "maps": true, "sort": true, "cmp": true,
 	"unicode": true, "unicode/utf8": true, "unicode/utf16": true, "container/list": true,
 	"math/bits": true, "internal/stringslite": true, "internal/bytealg": true, "iter": true,
+	"sync/atomic": true,
 }
 
 // concreteArgs: no symbol anywhere in the arguments (a body evaluated on a symbol would only branch on it).
@@ -922,6 +936,12 @@ func (m *mach) stdAsmModel(fn *ssa.Function, args []mv) (mv, bool) {
 		return nil, false
 	}
 	path := fn.Pkg.Pkg.Path()
+	if path == "sync/atomic" && fn.Blocks == nil {
+		return m.atomicLeaf(fn, args)
+	}
+	if path == "sync" {
+		return m.syncModel(fn, args)
+	}
 	if path != "internal/bytealg" && !(fn.Blocks == nil && (path == "bytes" || path == "strings")) {
 		return nil, false
 	}
@@ -975,4 +995,207 @@ func (m *mach) stdAsmModel(fn *ssa.Function, args []mv) (mv, bool) {
 		}
 	}
 	return nil, false
+}
+
+// atomicLeaf: the bodiless functions of sync/atomic. The machine evaluates one goroutine, so an atomic
+// access is the plain access (the typed wrappers atomic.Int64 etc. are evaluated from their bodies).
+func (m *mach) atomicLeaf(fn *ssa.Function, args []mv) (mv, bool) {
+	if len(args) == 0 {
+		return nil, false
+	}
+	p, ok := args[0].(*mv)
+	if !ok || p == nil {
+		return nil, false
+	}
+	var elem types.Type
+	if pt, ok := fn.Signature.Params().At(0).Type().Underlying().(*types.Pointer); ok {
+		elem = pt.Elem()
+	} else {
+		return nil, false
+	}
+	if *p == nil {
+		*p = m.zero(elem)
+	}
+	name := fn.Name()
+	intOp := func(f func(old, x int64) int64, retNew bool) (mv, bool) {
+		old, ok1 := (*p).(int64)
+		x, ok2 := args[1].(int64)
+		if !ok1 || !ok2 {
+			return nil, false
+		}
+		nv := wrapInt(f(old, x), elem)
+		*p = nv
+		if retNew {
+			return nv, true
+		}
+		return old, true
+	}
+	switch {
+	case strings.HasPrefix(name, "Load") && len(args) == 1:
+		return mcopy(*p), true
+	case strings.HasPrefix(name, "Store") && len(args) == 2:
+		*p = mcopy(args[1])
+		return mNil, true
+	case strings.HasPrefix(name, "Swap") && len(args) == 2:
+		old := *p
+		*p = mcopy(args[1])
+		return old, true
+	case strings.HasPrefix(name, "CompareAndSwap") && len(args) == 3:
+		eq, known := m.equal(*p, args[1])
+		if !known {
+			return nil, false
+		}
+		if eq {
+			*p = mcopy(args[2])
+		}
+		return eq, true
+	case strings.HasPrefix(name, "Add") && len(args) == 2:
+		return intOp(func(old, x int64) int64 { return old + x }, true)
+	case strings.HasPrefix(name, "And") && len(args) == 2:
+		return intOp(func(old, x int64) int64 { return old & x }, false)
+	case strings.HasPrefix(name, "Or") && len(args) == 2:
+		return intOp(func(old, x int64) int64 { return old | x }, false)
+	}
+	return nil, false
+}
+
+// syncModel: package sync under one goroutine. Locks, wait groups and condition variables do nothing;
+// Once.Do runs its function the first time (the done flag is kept beside the heap, keyed by the Once's address: synchronised state, not part of an instance's observable content); a Pool hands
+// out what New builds.
+func (m *mach) syncModel(fn *ssa.Function, args []mv) (mv, bool) {
+	recv := ""
+	if r := fn.Signature.Recv(); r != nil {
+		t := r.Type()
+		if pt, ok := t.(*types.Pointer); ok {
+			t = pt.Elem()
+		}
+		if n, ok := t.(*types.Named); ok {
+			recv = n.Obj().Name()
+		}
+	}
+	switch recv {
+	case "Mutex", "RWMutex", "WaitGroup", "Cond":
+		switch fn.Name() {
+		case "TryLock", "TryRLock":
+			return true, true
+		case "RLocker":
+			return nil, false
+		}
+		return mNil, true
+	case "Once":
+		if fn.Name() != "Do" || len(args) != 2 {
+			return nil, false
+		}
+		p, ok := args[0].(*mv)
+		if !ok || p == nil {
+			return nil, false
+		}
+		if m.onceDone[p] {
+			return mNil, true
+		}
+		if m.onceDone == nil {
+			m.onceDone = map[*mv]bool{}
+		}
+		m.onceDone[p] = true
+		m.callValue(args[1], nil)
+		return mNil, true
+	case "Pool":
+		switch fn.Name() {
+		case "Put":
+			return mNil, true
+		case "Get":
+			p, ok := args[0].(*mv)
+			if !ok || p == nil {
+				return nil, false
+			}
+			if st, ok := (*p).(mStruct); ok {
+				// the exported field New is the last one
+				if f := st[len(st)-1]; f != nil {
+					if _, isNil := f.(mNilT); !isNil {
+						return m.callValue(f, nil), true
+					}
+				}
+			}
+			return mIface{}, true
+		}
+	}
+	return nil, false
+}
+
+// errorsIs: errors.Is over the machine's error values. Errors made by errors.New are distinct objects
+// (a symbol each); an error made by fmt.Errorf with %w wraps something the model does not keep: unknown.
+func (m *mach) errorsIs(err, target mv, depth int) (is bool, known bool) {
+	if depth > 16 {
+		return false, false
+	}
+	if _, isNil := err.(mNilT); isNil {
+		_, tNil := target.(mNilT)
+		return tNil, true
+	}
+	ei, ok := err.(mIface)
+	if !ok || ei.t == nil {
+		return false, false
+	}
+	if ti, ok := target.(mIface); ok {
+		es, eSym := ei.v.(*mSym)
+		ts, tSym := ti.v.(*mSym)
+		switch {
+		case eSym && tSym:
+			if es == ts {
+				return true, true
+			}
+			if !strings.HasPrefix(es.name, "error(") || !strings.HasPrefix(ts.name, "error(") {
+				return false, false
+			}
+		case eSym || tSym:
+			// an errors.New value against a value of a concrete error type: different dynamic types
+		default:
+			if types.Comparable(ei.t) {
+				eq, k := m.equal(err, target)
+				if !k {
+					return false, false
+				}
+				if eq {
+					return true, true
+				}
+			}
+		}
+	}
+	if es, eSym := ei.v.(*mSym); eSym {
+		if strings.Contains(es.name, "%w") || !strings.HasPrefix(es.name, "error(") {
+			return false, false
+		}
+		return false, true
+	}
+	if f := m.c.lookupMethod(ei.t, "Is"); f != nil && f.Blocks != nil && f.Signature.Params().Len() == 1 && f.Signature.Results().Len() == 1 {
+		if r, ok := m.callFn(nil, f, []mv{ei.v, target}, nil).(bool); ok {
+			if r {
+				return true, true
+			}
+		} else {
+			return false, false
+		}
+	}
+	if f := m.c.lookupMethod(ei.t, "Unwrap"); f != nil && f.Blocks != nil && f.Signature.Results().Len() == 1 {
+		switch r := m.callFn(nil, f, []mv{ei.v}, nil).(type) {
+		case mNilT:
+			return false, true
+		case mIface:
+			return m.errorsIs(r, target, depth+1)
+		case mSlice:
+			for _, e := range r.arr {
+				is, k := m.errorsIs(e, target, depth+1)
+				if !k {
+					return false, false
+				}
+				if is {
+					return true, true
+				}
+			}
+			return false, true
+		default:
+			return false, false
+		}
+	}
+	return false, true
 }
